@@ -519,6 +519,10 @@ func SearchCorr(from Point, target, avoid func(ssa.Instruction) bool, known map[
 					delete(dec, k)
 				}
 			}
+			// a monotone flag field set on the path (directly or through its setter method)
+			if fa, ok := FlagAccessOf(in); ok && fa.Set {
+				dec[fa.Key] = fa.Val
+			}
 		}
 		if stop || len(b.Instrs) == 0 {
 			continue
@@ -548,6 +552,22 @@ func SearchCorr(from Point, target, avoid func(ssa.Instruction) bool, known map[
 							}
 						} else if !ineg {
 							cv = ev
+						}
+					}
+				}
+			}
+			// a test of a monotone flag (through its getter method) that the path has set
+			if forced < 0 {
+				if inner, ineg := Not(cv); true {
+					if call, isCall := inner.(*ssa.Call); isCall {
+						if fa, ok := FlagAccessOf(call); ok && !fa.Set {
+							if v, has := dec[fa.Key]; has {
+								if v != ineg {
+									forced = 0
+								} else {
+									forced = 1
+								}
+							}
 						}
 					}
 				}
